@@ -10,7 +10,8 @@ Ops(kd, o) == << <<"C04_TransportOrder", T_Order(o)>>, <<"C04_TransportNoLoss", 
                  <<"C13_TransportClosed", T_ClosedRefuses(o, kd)>>, <<"C13_TransportCloseNoticed", T_CloseNoticed(o)>>,
                  <<"C14_TransportCloseNoticed", T_CloseNoticed(o)>>, <<"C14_TransportSocketReleased", T_SocketReleased(o)>>,
                  <<"C13_TransportSocketReleased", T_SocketReleased(o)>>,
-                 <<"C09_TransportEncryption", T_EncryptionAgrees(o)>> >>
+                 <<"C09_TransportEncryption", T_EncryptionAgrees(o)>>,
+                 <<"C09_TransportSetEncApplied", T_SetEncApplied(o)>> >>
 Report(n, kd, o) == LET ops == Ops(kd, o) IN \A i \in 1 .. Len(ops) : ops[i][2] \/ PrintT(<<"BAD", n, ops[i][1]>>)
 CaseEnds(i) == i = Len(Trace) \/ Trace[i + 1].k = "cfg"
 Init == l = 1 /\ caseN = 0 /\ kind = "" /\ obs = <<>>
